@@ -405,3 +405,81 @@ func damagedForward(c *common.Ctx, r *common.Rand) error {
 	}
 	return nil
 }
+
+// dropRestartRecreate: a database is dropped, the node restarts before the name is used again, then the database is
+// created again: the log is one chain ending at the position after every step.
+func dropRestartRecreate(c *common.Ctx, r *common.Rand) error {
+	h, err := hist.New(c, r.Fork(), hist.Config{PageSize: 512, AllowDrop: true})
+	if err != nil {
+		if h != nil {
+			h.Close()
+		}
+		return err
+	}
+	defer h.Close()
+	for _, st := range []hist.Step{
+		{Op: "rtx", Writes: map[uint32]uint64{1: 1, 2: 2}, NewSize: 2},
+		{Op: "rtx", Writes: map[uint32]uint64{2: 12}, NewSize: 2},
+		{Op: "drop"},
+		{Op: "reopen"},
+		{Op: "rtx", Writes: map[uint32]uint64{1: 21, 2: 22, 3: 23}, NewSize: 3},
+		{Op: "rtx", Writes: map[uint32]uint64{3: 33}, NewSize: 3},
+		{Op: "reopen"},
+		{Op: "drop"},
+		{Op: "reopen"},
+		{Op: "reopen"},
+		{Op: "rtx", Writes: map[uint32]uint64{1: 41}, NewSize: 1},
+	} {
+		if ob := h.Exec(st); ob.Panic != "" || len(ob.Exits) > 0 {
+			break
+		}
+	}
+	h.CheckCrash(c, "C09")
+	h.CheckChain(c)
+	c.Distinct("drop-restart-recreate")
+	return nil
+}
+
+// sweepInsideCommit: the retention sweep (its own goroutine, no database lock) runs at the one moment a commit has
+// renamed its file into the log and not yet moved the position. The newest file stays.
+func sweepInsideCommit(c *common.Ctx, r *common.Rand) error {
+	dir, err := os.MkdirTemp(c.OutDir, "c09w-")
+	if err != nil {
+		return err
+	}
+	defer os.RemoveAll(dir)
+	ros := &lfs.RecOS{}
+	n, err := lfs.Open(dir, true, func(s *litefs.Store) { s.OS = ros })
+	if err != nil {
+		return err
+	}
+	defer n.Close()
+	h := hist.NewOn(c, r.Fork(), hist.Config{PageSize: 512}, n.Store, n.Exits, "db", nil, 0, false)
+	if err := commitN(h, 3); err != nil {
+		return err
+	}
+	db := n.Store.DB("db")
+	swept := 0
+	ros.After = func(call lfs.OSCall) {
+		if call.Op == "COMMITJOURNAL:LTX" && swept == 0 {
+			swept++
+			_ = db.EnforceRetention(context.Background(), time.Now().Add(time.Hour)) // every file counts as old
+		}
+	}
+	if err := commitN(h, 1); err != nil {
+		return err
+	}
+	ros.After = nil
+	pos := db.Pos()
+	rep := map[string]any{"kind": "sweep-inside-commit", "sweeps": swept}
+	c.Distinct("sweep-inside-commit")
+	if !checkStoredChain(c, filepath.Join(n.Dir, "dbs", "db"), uint64(pos.TXID), uint64(pos.PostApplyChecksum), "C09:sweep-inside-commit", "after a retention sweep that ran between a commit's rename and its position update", rep) {
+		return nil
+	}
+	if err := commitN(h, 1); err != nil {
+		return err
+	}
+	pos = db.Pos()
+	checkStoredChain(c, filepath.Join(n.Dir, "dbs", "db"), uint64(pos.TXID), uint64(pos.PostApplyChecksum), "C09:sweep-inside-commit", "one commit later", rep)
+	return nil
+}
